@@ -1,1 +1,2 @@
 import SqlcModel.Props.C14
+import SqlcModel.Props.C09
